@@ -142,6 +142,15 @@ theorem ramp_invariant_rigid (st : SType) (Q h : ℝ) (hh : h ≠ 0) (xs : List 
     lfilter (st.coef Q h 0) xs = rigidResp st Q h xs :=
   lfilter_rigid_eq st Q h hh xs
 
+/-- `srs.srs` (`rolloff='none'`) at 0 Hz, `ic` other than `'steady'`, every
+`stype × peak × time × eqsine`: history and spectrum value are those of the rigid-oscillator
+specification `exactCol0` (for `ic='steady'` no steady state exists at 0 Hz; the code adds the
+`wn > 0` gains there, or divides by zero for `reldisp`/`pvelo`). -/
+theorem srs_column_zero_hz_is_rigid_response_peak (o : Opts) (hic : o.ic ≠ .steady) (Q sr : ℝ)
+    (hsr : sr ≠ 0) (freqs sig : List ℝ) :
+    srsCol o Q sr freqs 0 sig = exactCol0 o Q sr freqs sig :=
+  srsCol_zero_hz' o hic Q sr hsr freqs sig
+
 /-- what that response is: absacce, pvelo, pacce `0`; relacce `-x`; reldisp `u`; relvelo `v` -/
 theorem rigid_response_values (Q h : ℝ) (s : ℝ × ℝ × ℝ) :
     SType.absacce.out (Osc.ofQ Q h 0) s = 0 ∧ SType.relacce.out (Osc.ofQ Q h 0) s = -s.2.2 ∧
